@@ -78,7 +78,10 @@ def _worker(args):
 def extend(prop, rep):
   """Adds TWIN and CONTROL rule instances to `rep` (before rep.finish)."""
   repo_pkg = str(core.REPO / core.PKG)
-  base = {(v['rule'], v['site']) for v in rep.violations}
+  # listed known findings are not alarms (the check prints them and exits 0);
+  # a listed finding may legitimately be reported at another site of a scratch
+  # copy (its helper inlined into the caller), so only unlisted ones are compared
+  base = {(v['rule'], v['site']) for v in rep.violations if rep._known_entry(v) is None}
   seeds = []
   sd = core.VERIF / 'seeded'
   if sd.exists():
@@ -122,7 +125,7 @@ def extend(prop, rep):
       if vio is None:
         rep.note('twin(%s) not evaluated: %s' % (kind, err))
         continue
-      tv = {(r, s) for r, s, known in vio}
+      tv = {(r, s) for r, s, known in vio if not known}
       extra = sorted(tv - base)
       gone = sorted(base - tv)
       if not extra:
@@ -140,7 +143,7 @@ def extend(prop, rep):
       if vio is None:
         rep.note('neutral %s skipped: %s' % (name, err))
         continue
-      extra = sorted({(r, s) for r, s, known in vio} - base)
+      extra = sorted({(r, s) for r, s, known in vio if not known} - base)
       if not extra:
         rep.hold('NEUTRAL', 'neutral/%s:silent' % name, {})
       else:
@@ -153,7 +156,7 @@ def extend(prop, rep):
         rep.note('control %s skipped: %s' % (name, err))
         continue
       applied += 1
-      new = sorted({(r, s) for r, s, known in vio} - base)
+      new = sorted({(r, s) for r, s, known in vio if not known} - base)
       if new:
         rep.hold('CONTROL', 'seeded/%s:reported' % name,
                  {'rules_fired': sorted({r for r, s in new})[:6]})
